@@ -22,6 +22,9 @@ type c01Val struct {
 	// property only demands that the string part is escaped (what happens to
 	// the trusted part of such a concatenation is not specified)
 	loose string
+	// mayFail: the route may legitimately be rejected (a plain string given to
+	// a helper that wants template.HTML); if it renders, the string is escaped
+	mayFail bool
 }
 
 // expected output segment
@@ -54,11 +57,11 @@ func (g *c01Gen) lit() string {
 	return pick(g.r, []string{"", "_", "x", "ab ", "-.-", "\n", " z "})
 }
 
-const c01NSteps = 21
+const c01NSteps = 22
 const c01NSinks = 9
 
 var c01StepNames = []string{"let", "array-index", "hash-index", "userfn-identity", "gohelper-identity", "gohelper-typed", "concat-left", "concat-right",
-	"for-var", "if-block", "else-block", "helper-block", "contentFor-body", "contentOf-data", "partial-data", "partial-layout", "userfn-body", "userfn-param-body", "nested-array", "concat-with-trusted-right", "concat-with-trusted-left"}
+	"for-var", "if-block", "else-block", "helper-block", "contentFor-body", "contentOf-data", "partial-data", "partial-layout", "userfn-body", "userfn-param-body", "nested-array", "concat-with-trusted-right", "concat-with-trusted-left", "helper-with-HTML-parameter"}
 var c01SinkNames = []string{"out", "if-return", "array-literal", "for-return", "hash-index-out", "let-then-out", "typed-strings-slice", "ifaces-slice", "for-over-typed-slice"}
 
 func (g *c01Gen) choose(n int) int {
@@ -118,6 +121,9 @@ func (g *c01Gen) route(d int, expr string, v c01Val) (string, []c01Seg) {
 		}
 	}
 	k := g.choose(c01NSteps)
+	if v.trusted && k == 21 {
+		k = 4
+	}
 	if v.trusted && (k == 6 || k == 7 || k == 5 || k >= 19) {
 		k = 0 // concat / string-typed helper are string-only steps
 	}
@@ -194,8 +200,15 @@ func (g *c01Gen) route(d int, expr string, v c01Val) (string, []c01Seg) {
 		return g.route(d-1, "[[1, "+expr+"]][0][1]", v)
 	case 19:
 		return g.route(d-1, "("+expr+" + raw(\"<br>\"))", c01Val{s: v.s, loose: "<br>"})
-	default:
+	case 20:
 		return g.route(d-1, "(\"\" + "+expr+" + trustedVar)", c01Val{s: v.s, loose: "<hr>"})
+	default:
+		nv := v
+		nv.mayFail = true
+		if nv.loose == "" {
+			nv.loose = "\x00none\x00"
+		}
+		return g.route(d-1, "wantsHTML("+expr+")", nv)
 	}
 }
 
@@ -273,6 +286,7 @@ func c01Ctx(partials map[string]string) *plush.Context {
 	ctx.Set("ident", func(x interface{}) interface{} { return x })
 	ctx.Set("idstr", func(s string) string { return s })
 	ctx.Set("trustedVar", template.HTML("<hr>"))
+	ctx.Set("wantsHTML", func(h template.HTML) template.HTML { return h })
 	ctx.Set("mkstrs", func(s string) []string { return []string{s, s} })
 	ctx.Set("mkhtmls", func(s interface{}) []interface{} { return []interface{}{s, s} })
 	ctx.Set("mkifaces", func(s interface{}) []interface{} { return []interface{}{s, s} })
@@ -325,6 +339,12 @@ func c01Judge(b *core.B, src string, segs []c01Seg, res R, id string, sigPrefix 
 		return
 	}
 	if res.Err != nil {
+		for _, s := range segs {
+			if s.val != nil && s.val.mayFail {
+				b.Count("rejected-route(allowed)")
+				return
+			}
+		}
 		b.Violate(sigPrefix+"route-rejected:"+core.ErrClass(res.Err), fmt.Sprintf("the route is well-formed but rendering failed: %v", res.Err))
 		return
 	}
